@@ -53,7 +53,7 @@ def evaluate(name, confirm, tier, also):
             res['demo_unpatched_exit'], res['demo_patched_exit'] = rc0, rc1
         res['checks'] = {}
         for p in [pid] + [a for a in also if a != pid]:
-            if not os.path.exists(os.path.join(VERIF, 'harness', p.lower() + '.py')):
+            if not os.path.exists(os.path.join(VERIF, 'harness', 'registry.d', p + '.json')):
                 res['checks'][p] = 'no-check-yet'
                 continue
             t0 = time.time()
